@@ -152,8 +152,31 @@ def deadlock_signature(details):
     return sorted(sig)
 
 
+def check_complete_args(w):
+    """C01, second sentence: every CompleteMultipartUpload the library issues
+    lists parts 1..n ascending with the ETags S3 returned (S3 itself rejects
+    anything else; the request is judged whether or not it succeeded)."""
+    for r in w.s3.log:
+        if r['op'] != 'complete_multipart_upload':
+            continue
+        pa = r.get('parts_arg')
+        if pa is not None:
+            nums = [p.get('PartNumber') for p in pa]
+            if nums != list(range(1, len(nums) + 1)):
+                w.violation('C01', 'part-numbering',
+                            'CompleteMultipartUpload for %s lists parts as %r'
+                            % (r['key'], nums), {'variant': 'order'})
+        err = r.get('error')
+        code = getattr(err, 'response', {}).get('Error', {}).get('Code') if err else None
+        if code == 'InvalidPart':
+            w.violation('C01', 'part-etag',
+                        'CompleteMultipartUpload for %s rejected: %s' % (r['key'], err),
+                        {'variant': 'etag'})
+
+
 def check_effects(w):
     """C01 / C02 / C16 per transfer."""
+    check_complete_args(w)
     for t in w.transfers:
         oc = t['outcome']
         ty = t['type']
